@@ -462,10 +462,10 @@ def run(ctx: lib.Ctx) -> None:
         allcases.append((3 * n + 20, (f'(CFree {cnat(n)} {pos_chunks(free[n])})', 'free', n)))
     ctx.extra['free_lengths_in_coq'] = len(lens)
 
-    # ---- 3. numeric algebra (thorough: every length three times; quick: every length up to 160, then every third and the powers of two)
+    # ---- 3. numeric algebra (thorough: every length three times; quick: every length up to 128, then every fourth and the powers of two)
     for rep in range(ctx.n(1, 3)):
         for n in range(0, NMAX + 1):
-            if not ctx.thorough and n > 160 and n % 3 and not any(abs(n - 2 ** k) <= 2 for k in (8, 9)) and n < 598:
+            if not ctx.thorough and n > 128 and n % 4 and not any(abs(n - 2 ** k) <= 2 for k in (8, 9)) and n < 598:
                 continue
             seed, e = rng.randrange(1, NUMP), rng.choice([0, 1, rng.randrange(NUMP)])
             v = num_run(n, seed, e)
@@ -489,7 +489,7 @@ def run(ctx: lib.Ctx) -> None:
         glue.append((doc['kind'], doc['lists'], doc['pred'], doc['round'], 'corpus'))
     for kind, lists, pred, rnd in vectors:
         glue.append((kind, lists, pred, rnd, 'vector'))
-    glue += gen_glue(rng, ctx.n(40, 600))
+    glue += gen_glue(rng, ctx.n(32, 600))
     for kind, lists, pred, rnd, tag in glue:
         got, calls, err = glue_impl(kind, lists, pred, rnd)
         want = glue_spec(kind, lists, pred, rnd)
@@ -508,7 +508,7 @@ def run(ctx: lib.Ctx) -> None:
                          (f'(CGlue {coq_glue_case(kind, lists, pred, rnd, tables)} {out})', 'glue', (kind, lists, pred, rnd, got, want, err))))
 
     # ---- 6. (A): the model evaluates every collected case inside coqc
-    shard = ctx.n(28, 60)
+    shard = ctx.n(64, 120)
     ordered = balanced(allcases, shard)
     bad = ctx.coq_mismatches('cases', IMPORTS, 'ccheck', 'Bool.eqb', 'ccase', 'bool', [(lit, 'true') for lit, _, _ in ordered], shard=shard)
     ctx.extra['coq_cases'] = {k: sum(1 for _, s_, _ in ordered if s_ == k) for k in ('free', 'num', 'glue')}
